@@ -131,6 +131,22 @@ func (c *Cluster) doExt(s Step, out *Outcome) bool {
 		}
 		t.SetHash(true)
 		c.apply(structs.ACLTokenSetRequestType, &structs.ACLTokenBatchSetRequest{Tokens: structs.ACLTokens{t}, CAS: s.Idx != "", AllowMissingLinks: s.Flag}, s, out)
+	case "acl.token.batch-cas":
+		// several tokens in one conditional batch: each token is written iff its own index matches
+		var toks structs.ACLTokens
+		for _, o := range s.Ops {
+			t := &structs.ACLToken{AccessorID: o.ID, SecretID: o.Text, Description: o.Text2, CreateTime: time.Now().Round(0)}
+			t.EnterpriseMeta = *defaultEntMeta()
+			var cur uint64
+			if _, ex, _ := st.ACLTokenGetByAccessor(nil, o.ID, nil); ex != nil {
+				cur = ex.ModifyIndex
+				t.CreateTime, t.ExpirationTime = ex.CreateTime, ex.ExpirationTime
+			}
+			t.ModifyIndex = resolveIdx(o.Idx, cur)
+			t.SetHash(true)
+			toks = append(toks, t)
+		}
+		c.apply(structs.ACLTokenSetRequestType, &structs.ACLTokenBatchSetRequest{Tokens: toks, CAS: true}, s, out)
 	case "acl.token.delete":
 		c.apply(structs.ACLTokenDeleteRequestType, &structs.ACLTokenBatchDeleteRequest{TokenIDs: []string{s.ID}}, s, out)
 	case "acl.bootstrap":
